@@ -95,7 +95,8 @@ ConfForms(ev) ==
   Complain(\A i \in 1..Len(fs) : fs[i].ys = ev.y.b, "right-operand-modified")
 
 \* C10: within one type, equal values (same normalised bits) feed the same stream
-HashKey(ev) == <<ev.x.k, Norm(ev.x.b)>>
+\* (ev.op is "hash": the vector hashed as a key; or "hash_slice": as an element of a hashed slice)
+HashKey(ev) == <<ev.op, ev.x.k, Norm(ev.x.b)>>
 ConfHash(ev) ==
   Complain(HashKey(ev) \in DOMAIN hashOf => hashOf[HashKey(ev)] = ev.h, "equal-values-hash-differently") \o
   Complain(ev.px.b = ev.x.b, "post-bits")
